@@ -74,7 +74,13 @@ func runC17(c *Ctx) error {
 						c17Msg{UUID: "bad2", Payload: `{"destination_topic":"","uuid":"x","payload":"cGF5","metadata":{}}`, Meta: metas[0], Env: "emptydest"},
 						c17Msg{UUID: "bad3", Payload: "p3", Meta: metas[1], Env: "trailing"},
 						c17Msg{UUID: "bad4", Payload: "p4", Meta: metas[0], Env: "double"},
-						c17Msg{UUID: "u-last", Payload: "p", Meta: metas[2], Env: "valid", Dest: "dest-9"})
+						c17Msg{UUID: "u-last", Payload: "p", Meta: metas[2], Env: "valid", Dest: "dest-9"},
+						// well-formed JSON that is no envelope (somebody else's event on the forwarder topic), right after a valid envelope
+						c17Msg{UUID: "bad5", Payload: `{}`, Meta: metas[1], Env: "plainjson"},
+						c17Msg{UUID: "u-mid1", Payload: "p", Meta: metas[2], Env: "valid", Dest: "dest-8"},
+						c17Msg{UUID: "bad6", Payload: `null`, Meta: metas[0], Env: "plainjson"},
+						c17Msg{UUID: "u-mid2", Payload: "p", Meta: metas[1], Env: "valid", Dest: "dest-7"},
+						c17Msg{UUID: "bad7", Payload: `{"event":"OrderPlaced","n":1}`, Meta: metas[2], Env: "plainjson"})
 				}
 				cases = append(cases, cs)
 				if comp == "forwarder" && fi < 2 {
@@ -104,6 +110,7 @@ func c17Run(r *tr.Run, cs c17Case) {
 	var mu sync.Mutex
 	current := map[string]*message.Message{} // logical id -> consumed copy of the running attempt
 	idOf := map[string]string{}              // uuid of the relayed message -> logical id
+	curDel, curUUID := "", ""                // the delivery in progress (deliveries are made one at a time)
 	dest.Fn = func(n int, topic string, msgs []*message.Message) error {
 		oc := "accept"
 		if cs.Fail[n] {
@@ -112,6 +119,9 @@ func c17Run(r *tr.Run, cs c17Case) {
 		for _, m := range msgs {
 			mu.Lock()
 			id := idOf[m.UUID]
+			if curDel != "" && curUUID == m.UUID {
+				id = curDel // (the same message may be relayed in more than one delivery)
+			}
 			cm := current[id]
 			mu.Unlock()
 			sample := "unknown"
@@ -311,6 +321,21 @@ func c17Run(r *tr.Run, cs c17Case) {
 			dels[di].mk = func() *message.Message { return env.Copy() }
 			dels[di].rec["dest"] = "dest-batch"
 		}
+		// the caller goes on to send the same batch (its own slice) to a second destination
+		before = len(fwdCapture.Calls())
+		if err := fwdPub.Publish("dest-again", batch...); err != nil {
+			r.Emit("error", "what", err.Error())
+			return
+		}
+		envs = fwdCapture.Calls()[before].Msgs
+		for k, di := range batchIdx {
+			env := envs[k]
+			d := dels[di]
+			d.id = fmt.Sprintf("m%d", len(dels)+1)
+			d.mk = func() *message.Message { return env.Copy() }
+			d.rec = map[string]any{"uuid": d.rec["uuid"], "payload": d.rec["payload"], "meta": d.rec["meta"], "valid": true, "dest": "dest-again"}
+			dels = append(dels, d)
+		}
 	}
 	// deliver, redelivering a fresh copy after every Nack (as GoChannel does), at most 4 attempts
 	ndeliv := 0
@@ -321,6 +346,7 @@ func c17Run(r *tr.Run, cs c17Case) {
 			msg.SetContext(mctx)
 			mu.Lock()
 			current[d.id] = msg
+			curDel, curUUID = d.id, fmt.Sprint(d.rec["uuid"])
 			mu.Unlock()
 			ndeliv++
 			r.Emit("consume", "m", d.id, "uuid", d.rec["uuid"], "payload", d.rec["payload"], "meta", d.rec["meta"], "valid", d.rec["valid"], "dest", d.rec["dest"])
